@@ -12,12 +12,38 @@ import (
 	"os"
 	"path/filepath"
 	"sync"
+	"sync/atomic"
 	"time"
 )
 
 var errEOF = io.EOF
 
-func timeoutChan() <-chan time.Time { return time.After(20 * time.Second) }
+// nativeTimeoutNs bounds a native replay run (default 20 s); a harness that
+// needs real time (eg. the one-minute minimum of repeating tasks) raises it
+// with NativeTimeout.
+var nativeTimeoutNs int64 = int64(20 * time.Second)
+
+// NativeTimeout (INTRINSIC: no-op under the engine) raises the time limit of
+// the native replay of this harness (at most 110 s: the replay test binary
+// runs with a 120 s deadline).
+func NativeTimeout(d time.Duration) {
+	if d > 110*time.Second {
+		d = 110 * time.Second
+	}
+	atomic.StoreInt64(&nativeTimeoutNs, int64(d))
+}
+
+func timeoutChan() <-chan time.Time {
+	out := make(chan time.Time, 1)
+	start := time.Now()
+	go func() {
+		for time.Since(start) < time.Duration(atomic.LoadInt64(&nativeTimeoutNs)) {
+			time.Sleep(100 * time.Millisecond)
+		}
+		out <- time.Now()
+	}()
+	return out
+}
 
 // ---------- replay table (native only) ----------
 
